@@ -57,7 +57,10 @@ def check(ctx):
 
 # ----------------------------------------------------------------------------- operand catalogue
 def numbers():
-    return [S.N(0), S.N(0.0), S.N(2), S.N(2.0), S.N(2.5), S.N(-2), S.N(-2.0), S.N(-2.5), S.N(1 + 2j), S.N(0j)]
+    # 2.9999999999999996 / -2.0000000000000004: non-integers one ulp away from an integer (a tolerance-based integrality test
+    # followed by int() truncation accepts them)
+    return [S.N(0), S.N(0.0), S.N(2), S.N(2.0), S.N(2.5), S.N(-2), S.N(-2.0), S.N(-2.5), S.N(1 + 2j), S.N(0j),
+            S.N(2.9999999999999996), S.N(-2.0000000000000004)]
 
 
 def arrays(name):
@@ -128,7 +131,7 @@ def a6(op, L, R, negpow=True):
             shape = S.dot_shape(L.shape, R.shape)
             if shape is None:
                 return Expect('RAISE', 'array * array, inner dimensions differ', why='combining arrays of incompatible shapes is always an error')
-            val = S.lf_product('dot', L.val, R.val)
+            val = S.dot_val(L, R)
             if all(d == 1 for d in shape):
                 row = 'vector * vector' if not shape else 'array * array giving a 1x1 result'
                 return Expect('VALUE', row, (), val, number=True, why='a dot product / 1x1 result is a number')
@@ -270,8 +273,10 @@ def d1_table(ctx, idx, flag_attr):
                 return
             key = (method, exp.row)
             if key not in groups:
-                groups[key] = [0, None, exp]
+                groups[key] = [0, None, exp, None]
                 order.append(key)
+            if outcome.trace.inexact and groups[key][3] is None:
+                groups[key][3] = outcome.trace.inexact[0]
             bad = judge(exp, outcome)
             if bad is None:
                 groups[key][0] += 1
@@ -304,13 +309,21 @@ def d1_table(ctx, idx, flag_attr):
                         if op == 'pow':
                             record('robust_pow (number base)', exp, L, R, op,
                                    S.run_function(idx, AQ, RP, [L, R], class_attr=hook), flag)
+        any_fail = any(groups[k][1] is not None for k in order)
+        reasons = set()
         for key in order:
-            n_ok, fail, exp = groups[key]
+            n_ok, fail, exp, inexact = groups[key]
             method, row = key
             owner = ci.methods.get(method)
             loc = owner.loc if owner is not None else (rp.loc if method.startswith('robust_pow') else ci.loc)
             construct = '%s [%s]' % (('MathArray.' + method) if method.startswith('__') else method, row)
-            if fail is None:
+            if fail is None and inexact is not None:
+                # reported once per reason, and only when no concrete witness explains the situation already
+                if not any_fail and inexact not in reasons:
+                    reasons.add(inexact)
+                    r.undecided(construct, 'the representatives agree with table A6, but %s: the outcome is not constant on the number '
+                                'classes of the abstract domain, so this row (and others) cannot be discharged' % inexact, loc)
+            elif fail is None:
                 r.ok(construct, '%d operand pair(s): %s' % (n_ok, 'raise a student-facing error' if exp.kind == 'RAISE'
                                                             else 'return the value linear algebra gives'), loc)
             else:
@@ -624,24 +637,46 @@ def d3_negative_powers(ctx, idx):
 
 # ----------------------------------------------------------------------------- D4
 def d4_cast(ctx, idx, flag_attr):
-    r = ctx.rule('D4.CAST', 'results of evaluation actions and intermediate products pass through cast_np_numeric_as_builtin', floor=6)
+    r = ctx.rule('D4.CAST', 'results of evaluation actions and intermediate products pass through cast_np_numeric_as_builtin', floor=11)
     with r:
         cast = idx.func(CAST)
-        # (a) the cast itself, by interpretation
+        # (a) the cast itself, by interpretation, in every mode its callers in eval_node / eval_product use
         hook = make_hook(flag_attr, True)
+        modes = {}
+        for q in (ME + '.eval_node', ME + '.eval_product'):
+            caller = idx.func(q)
+            for c in walk_own(caller.node):
+                if isinstance(c, ast.Call) and _resolves_to(idx, caller, c, cast):
+                    extra = []
+                    for i, a_ in enumerate(c.args[1:], 1):
+                        if i >= len(cast.params):
+                            raise AnalysisError('%s: too many arguments in `%s`' % (q, short(c)))
+                        extra.append((cast.params[i], a_))
+                    extra += [(k.arg, k.value) for k in c.keywords]
+                    kw = {}
+                    for name, node in extra:
+                        if name is None or not isinstance(node, ast.Constant):
+                            raise AnalysisError('%s: mode argument `%s` of the cast is not a constant' % (q, short(node)))
+                        kw[name] = node.value
+                    key = tuple(sorted(kw.items()))
+                    modes.setdefault(key, (kw, q.split('.')[-1], c, caller))
+        if not modes:
+            raise AnalysisError('no call of cast_np_numeric_as_builtin in eval_node / eval_product')
         samples = [('numpy float scalar', S.N(7.0, True)), ('numpy integer scalar', S.N(3, True)), ('numpy complex scalar', S.N(1 + 2j, True))]
-        for label, v in samples:
-            out = S.run_function(idx, AQ, cast.qualname, [v], class_attr=hook)
-            ok = out.kind == 'VALUE' and isinstance(out.value, S.N) and not out.value.np and out.value.v == v.v
-            r.check(ok, 'cast_np_numeric_as_builtin [%s]' % label, 'becomes a builtin number',
-                    'a %s is %s: it stays a numpy scalar, and a numpy scalar on the left of an operator bypasses MathArray\'s '
-                    'reflected methods (np.float64 + vector broadcasts silently)' % (label, out.describe() if out.kind == 'RAISE'
-                                                                                    else 'returned as %s' % S.describe(out.value)),
-                    where_of(idx, out, cast.loc), expected='obj.item()')
-        arr = S.Arr(('n',), name='A')
-        out = S.run_function(idx, AQ, cast.qualname, [arr], class_attr=hook)
-        r.check(out.kind == 'VALUE' and out.value is arr, 'cast_np_numeric_as_builtin [array]', 'arrays pass unchanged',
-                'an array is not returned unchanged (%s)' % out.describe(), cast.loc)
+        for key, (kw, who, c, caller) in sorted(modes.items(), key=lambda kv: repr(kv[0])):
+            mode = ', '.join('%s=%r' % kv for kv in sorted(kw.items())) or 'default mode'
+            for label, v in samples:
+                out = S.run_function(idx, AQ, cast.qualname, [v], dict(kw), class_attr=hook)
+                ok = out.kind == 'VALUE' and isinstance(out.value, S.N) and not out.value.np and out.value.v == v.v
+                r.check(ok, 'cast_np_numeric_as_builtin [%s, %s]' % (label, mode), 'becomes a builtin number',
+                        'called as in %s (`%s`), a %s is %s: it stays a numpy scalar, and a numpy scalar on the left of an operator '
+                        'bypasses MathArray\'s reflected methods (np.float64 + vector broadcasts silently instead of raising)'
+                        % (who, short(c), label, out.describe() if out.kind == 'RAISE' else 'returned as %s' % S.describe(out.value)),
+                        where_of(idx, out, cast.loc), expected='obj.item()')
+            arr = S.Arr(('n',), name='A')
+            out = S.run_function(idx, AQ, cast.qualname, [arr], dict(kw), class_attr=hook)
+            r.check(out.kind == 'VALUE' and out.value is arr, 'cast_np_numeric_as_builtin [array, %s]' % mode, 'arrays pass unchanged',
+                    'an array is not returned unchanged (%s)' % out.describe(), cast.loc)
         # (b) eval_node: every return that hands out an action's result is cast
         fi = idx.func(ME + '.eval_node')
         if len(fi.params) < 2:
@@ -807,6 +842,12 @@ MUTANTS = [
     Mutant('eval-product-cast-dropped', EXPR, "            result = cast_np_numeric_as_builtin(result)\n\n        return result", "            pass\n\n        return result", 'D4'),
     Mutant('eval-node-cast-dropped', EXPR, "        return cast_np_numeric_as_builtin(result, map_across_lists=True)", "        return result", 'D4'),
     Mutant('cast-narrowed-to-floating', EXPR, "    if isinstance(obj, np.number):\n        return obj.item()", "    if isinstance(obj, np.floating):\n        return obj.item()", 'D4'),
+    Mutant('seeded-C14a-cast-skipped-in-list-mode', EXPR, "    if isinstance(obj, np.number):\n        return obj.item()\n    if map_across_lists and isinstance(obj, list):\n        return [item.item() if isinstance(item, np.number) else item\n                for item in obj]\n    return obj",
+           "    if map_across_lists:\n        if isinstance(obj, list):\n            return [cast_np_numeric_as_builtin(item) for item in obj]\n        return obj\n    if isinstance(obj, np.number):\n        return obj.item()\n    return obj", 'D4'),
+    Mutant('seeded-C14b-integrality-by-tolerance', MA, "        integer_like = (isinstance(exponent, int) or\n                        isinstance(exponent, float) and exponent.is_integer())",
+           "        integer_like = (isinstance(exponent, int) or isinstance(exponent, float)\n                        and abs(exponent - np.round(exponent)) < 1e-12)", 'D1'),
+    Mutant('integrality-by-builtin-round', MA, "        integer_like = (isinstance(exponent, int) or\n                        isinstance(exponent, float) and exponent.is_integer())",
+           "        integer_like = (isinstance(exponent, int) or isinstance(exponent, float)\n                        and abs(exponent - round(exponent)) <= 1e-9)", 'D1'),
     Mutant('eval-product-cast-only-after-division', EXPR, "            # Need to cast np numerics as builtins here (in addition to during\n            # eval_node) because the result is changing shape\n            result = cast_np_numeric_as_builtin(result)",
            "            if op == '/':\n                result = cast_np_numeric_as_builtin(result)", 'D4'),
 ]
@@ -825,5 +866,9 @@ BENIGN = [
            "            allow = self.config['negative_powers']\n            with MathArray.enable_negative_powers(allow):"),
     Benign('pow-exponent-name-shortcut', MA, "            if isinstance(other, Number):\n                return robust_pow(self.item(), other)",
            "            if isinstance(other, Number):\n                return self.item() ** other"),
+    Benign('integrality-by-modulo', MA, "        integer_like = (isinstance(exponent, int) or\n                        isinstance(exponent, float) and exponent.is_integer())",
+           "        integer_like = (isinstance(exponent, int) or\n                        isinstance(exponent, float) and exponent % 1 == 0)"),
+    Benign('cast-list-branch-first', EXPR, "    if isinstance(obj, np.number):\n        return obj.item()\n    if map_across_lists and isinstance(obj, list):\n        return [item.item() if isinstance(item, np.number) else item\n                for item in obj]\n    return obj",
+           "    if map_across_lists and isinstance(obj, list):\n        return [item.item() if isinstance(item, np.number) else item\n                for item in obj]\n    if isinstance(obj, np.number):\n        return obj.item()\n    return obj"),
     Benign('mul-collapse-without-isinstance', MA, "                if isinstance(result, MathArray) and is_numberlike_array(result):", "                if is_numberlike_array(result):"),
 ]
